@@ -680,7 +680,7 @@ func checkDefs() map[string]*CheckDef {
 			Runs: []ProfRun{{"gov", 64, 1200}, {"extreme", 24, 400}, {"time", 24, 400}},
 			Mons: func(r *Runner) []Monitor { return []Monitor{NewMonC17(r)} },
 			Required: []string{"C17.accepted.gov_params", "C17.accepted.gov_update", "C17.state/", "C17.matured-zero-entry", "C17.donate-before-first-use", "C17.growth-configured-long-after-last-change"},
-			Rule: "every end-of-block of every history (profiles gov/extreme/time: configuration fuzz restricted to values the module's own handlers accepted on the main line, slashes, jailing, dust and drained assets, gaps from 1 ns to thousands of intervals) must return without error or panic; a situation class = accepted parameter class (rate/interval/take-rate classes) and end-block state class (pending unbondings/redelegations, flag, jailed validator, claim-interval class)",
+			Rule: "every end-of-block of every history (profiles gov/extreme/time: configuration fuzz restricted to values the module's own handlers accepted on the main line, slashes, jailing, dust and drained assets, gaps from 1 ns to thousands of intervals) must return without error or panic (the recorded decay-overflow finding is matched only when the whole intervals elapsed since the later of the stored decay clock and the moment governance configured the decay explain the overflow; scripted prefix late-decay-config); a situation class = accepted parameter class (rate/interval/take-rate classes) and end-block state class (pending unbondings/redelegations, flag, jailed validator, claim-interval class)",
 			Assumptions: commonAssumptions,
 		},
 	}
@@ -712,7 +712,7 @@ func queueDefs() []*CheckDef {
 			Mons: func(r *Runner) []Monitor { return []Monitor{NewMonC06(r)} },
 			ProbeEvery: 3,
 			Required: []string{"C06.slash/f=1", "C06.slash/f>=0.5", "C06.slash/f<0.01", "C06.slash/"},
-			Rule: "around every real slash callback (observed through the verif hook at callback entry) and around probe slashes of every created validator with rotating fractions on branches of every k-th visited state, the specified slash (validator shares x(1-f) in every asset, share totals reduced equally, redelegation destinations reduced per C07, order-agnostic) is applied to an exact-rational copy of the pre-state ledger and every position's value is compared with the real post-state within the 18-digit budget; staked totals untouched, no third party loses; a situation class = (fraction class, positions on / off the slashed validator, assets, pending redelegations, real/probe)",
+			Rule: "around every real slash callback (observed through the verif hook at callback entry) and around probe slashes of every created validator with rotating fractions on branches of every k-th visited state, the specified slash (validator shares x(1-f) in every asset, share totals reduced equally, redelegation destinations reduced per C07, order-agnostic) is applied to an exact-rational copy of the pre-state ledger and every position's value is compared with the real post-state within the 18-digit budget; a callback that fails is judged by what it left behind (x/staking only logs the error and slashes the validator anyway), except for the recorded pool-short cause; staked totals untouched, no third party loses; a situation class = (fraction class, positions on / off the slashed validator, assets, pending redelegations, real/probe)",
 			Assumptions: commonAssumptions,
 		},
 		{
@@ -806,7 +806,7 @@ func valueDefs() []*CheckDef {
 			Mons: func(r *Runner) []Monitor { return []Monitor{NewMonC12(r), NewMonC05(r)} },
 			ProbeEvery: 4,
 			Required: []string{"C05.state/slashes0", "C05.state/slashes1", "C05.state/slashes3", "C05.validator-removed", "C05.sub-unit-remainder-after-exit"},
-			Rule: "after every k-th step of seeded histories (slashes of every fraction up to 100%, take-rate deductions, jailed/unbonded validators, warm-up) probe transactions on discarded branches: delegate 1 unit and a large amount of every asset to every validator, and for every position with a positive reported balance claim then undelegate the full reported balance, and undelegate from every delegation record whose validator record is gone; each must succeed; failures are matched against the recorded mechanisms (zero-value-validator, pool-short, precision-18dec) and are violations otherwise; a situation class = (slashes so far, jailed validators, number of positions)",
+			Rule: "after every k-th step of seeded histories (slashes of every fraction up to 100%, take-rate deductions, jailed/unbonded validators, warm-up) probe transactions on discarded branches: delegate 1 unit and a large amount of every asset to every validator, and for every position with a positive reported balance claim then undelegate the full reported balance, and undelegate from every delegation record whose validator record is gone; each must succeed; failures are matched against the recorded mechanisms (zero-value-validator, pool-short, precision-18dec, rounder-balance, subshare-stuck) by cause, not by symptom, and are violations otherwise: a division by zero on a (validator, asset) whose validator shares were removed by a user's exit while the positions staying there were worth more than 18-digit noise is not the recorded zero-value-validator finding (provenance of the state is tracked after every undelegate/redelegate; scripted prefix dust-cohabitant); a situation class = (slashes so far, jailed validators, number of positions)",
 			Assumptions: commonAssumptions,
 		},
 	}
